@@ -18,7 +18,19 @@ var keyPool = []string{"a", "b", "b5", "c", "d", "e"}
 
 // GenProgram draws a concurrent workload: 2-4 transactions over shared keys, interleaved step by step,
 // with tolerated faults and gates on the multi-RPC calls.
-func Gen(t *rapid.T, backend sim.Backend, nClients int) (keys []string, splits []string, steps []*sim.Step) {
+// Options tune the generator.
+type Options struct {
+	Aggressive bool // pessimistic transactions also run aggressive-locking (fair locking) statement attempts
+	WaitLocks  bool // lock calls may wait a few milliseconds instead of failing at once
+	NoLoss     bool // no lost messages among the tolerated faults (region errors and gates only)
+	NoReads    bool // fewer read steps
+}
+
+func Gen(t *rapid.T, backend sim.Backend, nClients int, opts ...Options) (keys []string, splits []string, steps []*sim.Step) {
+	var o Options
+	if len(opts) > 0 {
+		o = opts[0]
+	}
 	nKeys := rapid.IntRange(2, 5).Draw(t, "nkeys")
 	keys = append([]string{}, rapid.Permutation(keyPool).Draw(t, "keys")[:nKeys]...)
 	sort.Strings(keys)
@@ -35,6 +47,9 @@ func Gen(t *rapid.T, backend sim.Backend, nClients int) (keys []string, splits [
 	perTxn := make([][]*sim.Step, nTxn)
 	for i := 0; i < nTxn; i++ {
 		pess := rapid.Bool().Draw(t, "pessimistic")
+		if o.NoReads && !pess {
+			pess = rapid.Bool().Draw(t, "pessimistic2") // the clean-up paths of pessimistic transactions are the richer ones
+		}
 		b := &sim.Step{Txn: i, Op: "begin", Client: rapid.IntRange(0, nClients-1).Draw(t, "client"), Pessimistic: pess}
 		if backend == sim.Uni {
 			switch rapid.IntRange(0, 3).Draw(t, "mode") {
@@ -82,6 +97,15 @@ func Gen(t *rapid.T, backend sim.Backend, nClients int) (keys []string, splits [
 			// Lock record): no lock-only keys there (no bare lock calls, no pessimistic insert-then-delete)
 			if pess && backend != sim.Uni {
 				ops = append(ops, "lock", "lock")
+			}
+			if pess && o.Aggressive {
+				ops = append(ops, "lock", "lock", "aggr-start", "aggr-retry", "aggr-retry", "aggr-done", "aggr-cancel")
+			}
+			if o.NoReads {
+				ops = append(ops, "set", "delete", "insert")
+				if pess && backend != sim.Uni {
+					ops = append(ops, "lock", "lock", "lock")
+				}
 			}
 			s := &sim.Step{Txn: i, Op: rapid.SampledFrom(ops).Draw(t, "op")}
 			if backend == sim.Uni && s.Op == "iterrev" {
@@ -144,6 +168,9 @@ func Gen(t *rapid.T, backend sim.Backend, nClients int) (keys []string, splits [
 					s.Op, s.Keys = "get", []string{key("k")}
 					break
 				}
+				if o.WaitLocks && rapid.IntRange(0, 2).Draw(t, "wait") == 0 {
+					s.WaitMs = int64(rapid.IntRange(1, 15).Draw(t, "waitms"))
+				}
 				switch rapid.IntRange(0, 3).Draw(t, "lockmode") {
 				case 1:
 					s.ReturnValues = true
@@ -156,6 +183,9 @@ func Gen(t *rapid.T, backend sim.Backend, nClients int) (keys []string, splits [
 			seq = append(seq, s)
 		}
 		end := &sim.Step{Txn: i, Op: "commit"}
+		if o.Aggressive {
+			end.AggrDone = rapid.Bool().Draw(t, "aggrdone")
+		}
 		if rapid.IntRange(0, 5).Draw(t, "rollback") == 0 {
 			end.Op = "rollback"
 		}
@@ -203,7 +233,7 @@ func Gen(t *rapid.T, backend sim.Backend, nClients int) (keys []string, splits [
 				fs.Type = "PessimisticLock"
 			}
 			fs.Action = rapid.SampledFrom([]string{"notLeader", "epochNotMatch", "serverIsBusy", "staleCommand", "gateBefore", "gateAfter", "gateBefore", "gateAfter", "dropResponse"}).Draw(t, "faction")
-			if fs.Action == "dropResponse" && fs.Type != "Prewrite" {
+			if fs.Action == "dropResponse" && (fs.Type != "Prewrite" || o.NoLoss) {
 				fs.Action = "serverIsBusy" // only losses that cannot move the commit point are "tolerated" here (C03 covers the others)
 			}
 			if strings.HasPrefix(fs.Action, "gate") {
@@ -302,7 +332,7 @@ func Run(backend sim.Backend, nStores int, batch1 bool, conc1 bool, keys, splits
 		for _, e := range es {
 			tail = append(tail, sim.DescribeEntry(e))
 		}
-		res.Hung = fmt.Sprintf("case did not finish within 60 s; log:\n    %s\n  last RPCs:\n    %s", strings.Join(w.Log, "\n    "), strings.Join(tail, "\n    "))
+		res.Hung = fmt.Sprintf("case did not finish within 60 s; log:\n    %s\n  last RPCs:\n    %s\n  goroutines:\n%s", strings.Join(w.Log, "\n    "), strings.Join(tail, "\n    "), sim.GoroutineDump())
 		return
 	}
 	if failMsg != "" {
